@@ -43,16 +43,39 @@ func selfTestLegacyCurve() error {
 	return nil
 }
 
-func legacyPub(p ecref.Point) *ecdsa.PublicKey {
-	return &ecdsa.PublicKey{Curve: elliptic.P256(), X: new(big.Int).Set(p.X), Y: new(big.Int).Set(p.Y)}
+// plainCurve hides the optional fast-path methods (Inverse, CombinedMult) of the standard library's P-256 so that
+// the generic branches of sm2_legacy.go (fermatInverse, ScalarBaseMult+ScalarMult+Add) are reached.
+type plainCurve struct{ elliptic.Curve }
+
+var wrappedP256 elliptic.Curve = plainCurve{elliptic.P256()}
+
+// legacyCurves lists the curve objects used for the legacy path. The bare elliptic.P256() is skipped in the purego
+// build: with -tags purego on amd64 the Go 1.23 standard library's p256Curve.Inverse panics by itself
+// (crypto/internal/nistec.P256OrdInverse is "unimplemented" there) — a toolchain artefact, not a gmsm behaviour.
+func legacyCurves(t *engine.T) []elliptic.Curve {
+	if t.Config() == "c-purego" {
+		return []elliptic.Curve{wrappedP256}
+	}
+	return []elliptic.Curve{elliptic.P256(), wrappedP256}
 }
 
-func legacyPriv(d *big.Int, p ecref.Point) *sm2.PrivateKey {
-	return &sm2.PrivateKey{PrivateKey: ecdsa.PrivateKey{PublicKey: *legacyPub(p), D: new(big.Int).Set(d)}}
+func curveName(cv elliptic.Curve) string {
+	if _, ok := cv.(plainCurve); ok {
+		return "P-256(generic-methods-only)"
+	}
+	return "P-256"
 }
 
-func legacyVctx(c *ecref.Curve, pubPt ecref.Point, uid, msg []byte) *vctx {
-	pub := legacyPub(pubPt)
+func legacyPub(cv elliptic.Curve, p ecref.Point) *ecdsa.PublicKey {
+	return &ecdsa.PublicKey{Curve: cv, X: new(big.Int).Set(p.X), Y: new(big.Int).Set(p.Y)}
+}
+
+func legacyPriv(cv elliptic.Curve, d *big.Int, p ecref.Point) *sm2.PrivateKey {
+	return &sm2.PrivateKey{PrivateKey: ecdsa.PrivateKey{PublicKey: *legacyPub(cv, p), D: new(big.Int).Set(d)}}
+}
+
+func legacyVctx(cv elliptic.Curve, c *ecref.Curve, pubPt ecref.Point, uid, msg []byte) *vctx {
+	pub := legacyPub(cv, pubPt)
 	return &vctx{c: c, g: TableFor(c, c.G()), p: TableFor(c, pubPt), pub: pub, cert: &smx509.Certificate{PublicKey: pub}, uid: uid, msg: msg,
 		e: c.Digest(effUID(uid), pubPt, msg), defUID: len(uid) == 0 || bytes.Equal(uid, ecref.DefaultUID), memo: map[string]bool{}}
 }
@@ -76,10 +99,10 @@ func legacyKeys() []Key {
 	return ks
 }
 
-func legacyCompleteness(t *engine.T, key Key) {
+func legacyCompleteness(t *engine.T, cv elliptic.Curve, key Key) {
 	c := NISTP256()
 	g := TableFor(c, c.G())
-	priv := legacyPriv(key.D, key.Pub)
+	priv := legacyPriv(cv, key.D, key.Pub)
 	one := big.NewInt(1)
 	second := ecref.Bytes32(legacyChain(c, "verif/c06/legacy-mid", 2))
 	nonces := []nonceSpec{
@@ -94,7 +117,7 @@ func legacyCompleteness(t *engine.T, key Key) {
 		uid := Pattern(ul, 0x55)
 		for _, ml := range []int{0, 32, 1000} {
 			msg := Pattern(ml, 0xb0)
-			v := legacyVctx(c, key.Pub, uid, msg)
+			v := legacyVctx(cv, c, key.Pub, uid, msg)
 			for _, ns := range nonces {
 				r, s, k := refSign(c, g, key.D, v.e, ns.blocks)
 				refSig := ecref.EncodeDERSig(r, s)
@@ -102,7 +125,7 @@ func legacyCompleteness(t *engine.T, key Key) {
 					t.Fail("HARNESS/reference-signature-does-not-verify", "legacy key %s k=%x", key.Name, k)
 					return
 				}
-				t.Nontrivial(fmt.Sprintf("legacy/complete/%s/uid=%d/msg=%d/%s", key.Name, ul, ml, ns.name))
+				t.Nontrivial(fmt.Sprintf("legacy/complete/%s/%s/uid=%d/msg=%d/%s", curveName(cv), key.Name, ul, ml, ns.name))
 				for _, se := range signEntries {
 					if se.defaultOnly && ul != 0 {
 						continue
@@ -134,12 +157,12 @@ func legacyCompleteness(t *engine.T, key Key) {
 	}
 }
 
-func legacySoundness(t *engine.T) {
+func legacySoundness(t *engine.T, cv elliptic.Curve) {
 	c := NISTP256()
 	g := TableFor(c, c.G())
 	key := legacyKeys()[2]
 	msg := Pattern(45, 0x3c)
-	v := legacyVctx(c, key.Pub, nil, msg)
+	v := legacyVctx(cv, c, key.Pub, nil, msg)
 	r, s, _ := refSign(c, g, key.D, v.e, [][]byte{ecref.Bytes32(legacyChain(c, "verif/c06/legacy-nonce", 1))})
 	tr := &triple{idx: 100, key: key, msg: msg, r: r, s: s, sig: ecref.EncodeDERSig(r, s), v: v}
 	v.check(t, "legacy/seed", "unmodified reference signature", tr.sig)
@@ -167,15 +190,15 @@ func legacySoundness(t *engine.T) {
 		}
 	}
 	other := legacyKeys()[1]
-	legacyVctx(c, other.Pub, nil, msg).check(t, "legacy/other-key", "valid signature under another key", tr.sig)
-	legacyVctx(c, key.Pub, nil, append(append([]byte{}, msg...), 1)).check(t, "legacy/other-message", "valid signature for another message", tr.sig)
-	legacyVctx(c, key.Pub, []byte("x"), msg).check(t, "legacy/other-uid", "valid signature for another UID", tr.sig)
+	legacyVctx(cv, c, other.Pub, nil, msg).check(t, "legacy/other-key", "valid signature under another key", tr.sig)
+	legacyVctx(cv, c, key.Pub, nil, append(append([]byte{}, msg...), 1)).check(t, "legacy/other-message", "valid signature for another message", tr.sig)
+	legacyVctx(cv, c, key.Pub, []byte("x"), msg).check(t, "legacy/other-uid", "valid signature for another UID", tr.sig)
 }
 
 // legacyInvalidScalar: the statement "signing with d >= n-1 returns an error on every call" on the math/big path.
 // The reader is bounded (it fails after 24 nonce blocks) so that a signing loop that can never succeed
 // (d = n-1 makes s = 0 for every k) surfaces as the injected error instead of hanging the worker.
-func legacyInvalidScalar(t *engine.T) {
+func legacyInvalidScalar(t *engine.T, cv elliptic.Curve) {
 	c := NISTP256()
 	g := TableFor(c, c.G())
 	one := big.NewInt(1)
@@ -187,7 +210,7 @@ func legacyInvalidScalar(t *engine.T) {
 		if pub.Inf {
 			pub = c.G()
 		}
-		priv := legacyPriv(dk.d, pub)
+		priv := legacyPriv(cv, dk.d, pub)
 		for call := 0; call < 3; call++ {
 			rd := engine.NewScriptReader()
 			rd.Fault = map[int]int{24: engine.AnsErr}
@@ -213,8 +236,26 @@ func legacyInvalidScalar(t *engine.T) {
 func runLegacy(c *engine.Ctx) {
 	for _, k := range legacyKeys() {
 		k := k
-		c.Case("legacy/complete/"+k.Name, func(t *engine.T) { legacyCompleteness(t, k) })
+		c.Case("legacy/complete/"+k.Name, func(t *engine.T) {
+			for _, cv := range legacyCurves(t) {
+				legacyCompleteness(t, cv, k)
+			}
+		})
 	}
-	c.Case("legacy/sound/small-subs+der+structured", func(t *engine.T) { legacySoundness(t) })
-	c.Case("legacy/invalid-scalar-sign", func(t *engine.T) { legacyInvalidScalar(t) })
+	c.Case("legacy/sound/small-subs+der+structured", func(t *engine.T) {
+		for _, cv := range legacyCurves(t) {
+			legacySoundness(t, cv)
+		}
+	})
+	c.Case("legacy/invalid-scalar-sign", func(t *engine.T) {
+		for _, cv := range legacyCurves(t) {
+			legacyInvalidScalar(t, cv)
+		}
+	})
 }
+
+// WrappedP256 is NIST P-256 exposing only the generic elliptic.Curve methods (used by props/c07).
+func WrappedP256() elliptic.Curve { return wrappedP256 }
+
+// CurveName names a legacy curve object.
+func CurveName(cv elliptic.Curve) string { return curveName(cv) }
